@@ -27,6 +27,7 @@ struct Cn {
     probes: AtomicU64,
     probes_expect_dup: AtomicU64,
     probes_expect_not_dup: AtomicU64,
+    refused_perturbed_candidate: AtomicU64,
     uuid_probes: AtomicU64,
 }
 
@@ -39,6 +40,22 @@ struct M<'a, K, const D: usize> {
     seed_pts: Vec<[f64; D]>,
     k1_points: Vec<[f64; D]>,
     _k: std::marker::PhantomData<K>,
+}
+
+/// coordinate vectors quoted in a diagnostic ("[1.99999999, 2e-8, -3e-8]")
+fn quoted_coords<const D: usize>(dbg: &str) -> Vec<[f64; D]> {
+    let mut out = Vec::new();
+    let mut rest = dbg;
+    while let Some(a) = rest.find('[') {
+        let Some(b) = rest[a..].find(']') else { break };
+        let inner = &rest[a + 1..a + b];
+        let vals: Vec<f64> = inner.split(',').filter_map(|t| t.trim().parse::<f64>().ok()).collect();
+        if vals.len() == D && inner.split(',').count() == D {
+            out.push(std::array::from_fn(|i| vals[i]));
+        }
+        rest = &rest[a + b + 1..];
+    }
+    out
 }
 
 fn is_dup_outcome(o: &Outcome) -> bool {
@@ -109,10 +126,21 @@ impl<'a, K: Kernel<D, Scalar = f64> + Sync + Send, const D: usize> M<'a, K, D> {
                         });
                         return;
                     }
-                    if !near_live && dup {
+                    // The crate retries a geometrically degenerate insertion at deterministically perturbed
+                    // coordinates; when such a candidate lands on a live (itself perturbed) vertex the refusal names the
+                    // candidate. That is a refusal because of a vertex that IS present, so it is not what the last
+                    // sentence of the property forbids (first version of this check flagged it: a false alarm).
+                    let refused_candidate_is_live = match &out {
+                        Outcome::Err { dbg, .. } | Outcome::Skipped { dbg, .. } => quoted_coords::<D>(dbg).iter().any(|c| snap.verts.iter().any(|v| dist_cmp(&v.c, c, TOL) < 0)),
+                        _ => false,
+                    };
+                    if !near_live && dup && refused_candidate_is_live {
+                        self.cn.refused_perturbed_candidate.fetch_add(1, Ordering::Relaxed);
+                    }
+                    if !near_live && dup && !refused_candidate_is_live {
                         self.rep.violation(Finding {
                             signature: json!({"check": "refused_without_live_duplicate", "last_op": last, "target": if *is_current { "current" } else { "former" }, "D": D}),
-                            description: format!("insert at {p:?} was refused as duplicate coordinates although no live vertex is within the tolerance (target was a {} position)", if *is_current { "current" } else { "former" }),
+                            description: format!("insert at {p:?} was refused as duplicate coordinates although no live vertex is within the tolerance (target was a {} position; nearest live vertex {:?}; outcome {out:?})", if *is_current { "current" } else { "former" }, snap.verts.iter().map(|v| (v.c, (0..D).map(|k| (v.c[k] - p[k]).powi(2)).sum::<f64>().sqrt())).min_by(|a, b| a.1.total_cmp(&b.1))),
                             replay: self.replay_json(hist, json!({"probe": p.to_vec(), "stats": stats})),
                         });
                         return;
@@ -249,7 +277,7 @@ fn main() {
     let rep = Report::new("C09", &args);
     let thorough = args.tier == Tier::Thorough;
     let x = usize::from(thorough);
-    let cn = Cn { probes: AtomicU64::new(0), probes_expect_dup: AtomicU64::new(0), probes_expect_not_dup: AtomicU64::new(0), uuid_probes: AtomicU64::new(0) };
+    let cn = Cn { probes: AtomicU64::new(0), probes_expect_dup: AtomicU64::new(0), probes_expect_not_dup: AtomicU64::new(0), refused_perturbed_candidate: AtomicU64::new(0), uuid_probes: AtomicU64::new(0) };
     let mut total = Stats::default();
     let mut bounds = Vec::new();
     // small alphabets that contain on-edge / collinear points (perturbation retries store displaced coordinates)
@@ -278,10 +306,11 @@ fn main() {
         "probes_expected_duplicate": pd,
         "probes_expected_not_duplicate": pn,
         "uuid_probes": cn.uuid_probes.load(Ordering::Relaxed),
+        "refusals_of_a_perturbed_candidate_that_coincides_with_a_live_vertex": cn.refused_perturbed_candidate.load(Ordering::Relaxed),
         "exhaustive": total.caps_hit.is_empty(),
         "rule": "BFS over {insert, remove, Edit k=1 insert at 2 fresh points, Edit k=1 remove, repair_advanced, clone swap, serde swap, mutable-view touch}; in every reached state: exact pairwise-distance invariant, and on a clone a probe insert (both entry points) at q, q+-0.5e-10, q+-2e-10 for every current (stored) and former vertex position, compared with the reference model 'duplicate iff a live vertex is strictly within 1e-10 (exact arithmetic)'; plus duplicate-UUID probes",
         "bounds": bounds,
     });
-    let code = rep.finish("model_checking", cov, vec!["probes within 1% of the tolerance boundary are skipped (floating-point distance evaluation)".into()], args.part.as_deref());
+    let code = rep.finish("model_checking", cov, vec!["probes within 1% of the tolerance boundary are skipped (floating-point distance evaluation)".into(), "a refusal whose diagnostic names a (perturbed retry) candidate that is exactly within the tolerance of a live vertex counts as a refusal of a live duplicate".into()], args.part.as_deref());
     std::process::exit(code);
 }
